@@ -118,6 +118,7 @@ class Ctx:
         self.obligations: list[str] = []
         self.discharged: list[str] = []
         self.assumptions_printed: dict[str, str] = {}
+        self.coqchk = None
         self.notes: list[str] = []
         self.oracle_runs = 0
         self.distinct: set = set()
@@ -184,6 +185,17 @@ class Ctx:
                 else:
                     self.discharged += thms
                     self.assumptions_printed.update(parse_assumptions(out, thms))
+            if self.thorough:
+                # thorough tier: the independent checker re-checks the compiled library and everything it depends on
+                libs = " ".join("FV." + f[:-2].replace("/", ".") for f in files)
+                rc, out, dt = sh(f"timeout 1800 coqchk -o -silent -R . FV {libs}", timeout=1830, cwd=COQ)
+                m = re.search(r"\* Axioms:(.*?)\n\s*\n\* Constants", out, re.S)
+                axioms = sorted(a.strip() for a in (m.group(1).split("\n") if m else []) if a.strip() and a.strip() != "<none>")
+                bad_ctx = [k for k in ("type-in-type", "unsafe (co)fixpoints", "positivity is assumed")
+                           if not re.search(re.escape(k) + r":\s*<none>", out)]
+                self.coqchk = {"seconds": round(dt, 1), "axioms": axioms, "ok": rc == 0 and not bad_ctx}
+                if rc != 0 or bad_ctx:
+                    self.broke("proof", "coqchk " + libs, out[-3000:])
         return not any(b["kind"] in ("proof", "translator") for b in self.broken)
 
     # -- correspondence inside Coq -------------------------------------------------------------
@@ -386,6 +398,9 @@ def run_property(mod, tier: str, seed: int) -> int:
     trusted = list(BASE_TRUSTED) + list(getattr(mod, "TRUSTED", []))
     for thm, a in sorted(ctx.assumptions_printed.items()):
         trusted.append(f"Print Assumptions {thm}: {a}")
+    if ctx.coqchk:
+        trusted.append(f"coqchk -o (independent re-check of the compiled library and its dependencies, {ctx.coqchk['seconds']} s): "
+                       + ("accepted; " if ctx.coqchk["ok"] else "REJECTED; ") + "axioms in the loaded context: " + (", ".join(ctx.coqchk["axioms"]) or "none"))
     ev = {
         "property_id": pid, "tier": tier, "seed": seed, "level": "proof",
         "coverage": {
